@@ -42,6 +42,7 @@ class Explorer:
         self.guards = collections.Counter()
         self.outcomes = collections.Counter()
         self.state_monitors = []      # f(explorer, hist, t, model, canon)
+        self.trans_monitors = []      # f(explorer, hist, op, t, model, canon, result)
         self.sample = None
 
     # -- helpers
@@ -132,6 +133,8 @@ class Explorer:
                     self.report(viol(self.prop, self.sig(op[0], 'dump-failed'),
                                      self.case(hist, op), repr(e)))
                     continue
+                for mon in self.trans_monitors:
+                    mon(self, hist, op, t, m, c, rs)
                 if c not in seen:
                     if self.max_states and len(seen) >= self.max_states:
                         self.exhaustive = False
